@@ -15,7 +15,7 @@
     time is one an int64 nanosecond count can express (between Go's zero time and year 3000). *)
 From Coq Require Import List NArith ZArith Bool Sorted.
 From ApiFu Require Import Base.Sexp TimeConn.TimeModel TimeConn.TimeSpec TimeConn.TimeProofs
-  TimeConn.TimeErrModel TimeConn.TimeErrProofs.
+  TimeConn.TimeErrModel TimeConn.TimeErrProofs TimeConn.TimeCursorCodec TimeConn.TimeCursorCodecProofs.
 Import ListNotations.
 Open Scope Z_scope.
 
@@ -248,6 +248,40 @@ Theorem C16_typed_nil_error_refuted_before_fix :
     (exists info, fst (fst (xconn current true g typed_nil_sync s_info (TCVal 0) a)) = XPage (TimeRef E a) (Some info) None).
 Proof. exact typed_nil_error_refuted_before_fix. Qed.
 
+(** ** Stage B: the cursors as the strings that travel
+
+    [tb_encode] / [tb_decode] (TimeConn/TimeCursorCodec.v) transcribe SerializeCursor /
+    DeserializeCursor for the struct TimeBasedCursor{Nano int64; Id string}, composed from C09's
+    model of base64url and msgpack (Relay/CursorCodec.v).  [wire_ok c]: the nanoseconds fit an
+    int64, the id is shorter than 2^32 bytes. *)
+
+(** Every cursor the server emits is accepted back and denotes the same (time, id) position. *)
+Theorem C16_cursor_codec_roundtrip : forall c, wire_ok c -> tb_decode (tb_encode c) = DCur c.
+Proof. exact tb_roundtrip. Qed.
+
+(** An emitted cursor is never the empty string (which the resolver reads as "no cursor"), so
+    feeding endCursor back as [after] always reaches the cursor itself. *)
+Theorem C16_cursor_string_as_argument : forall c,
+  tb_encode c <> [] /\ (wire_ok c -> arg_of_wire (Some (tb_encode c)) = Some (CCursor c)).
+Proof. intro c. split; [apply tb_encode_nonempty | apply arg_of_wire_encode]. Qed.
+
+(** The walks of the statement with the cursor STRINGS the server emitted: first:n, then
+    after:<the endCursor string> while hasNextPage (and backwards likewise) visits every edge of
+    the window exactly once, in order. *)
+Theorem C16_time_walk_fwd_by_cursor_string : forall E g ps n from to fuel,
+  honours g E -> NoDup E -> representable E -> (forall e, In e E -> wire_ok e) ->
+  1 <= n -> (length E < fuel)%nat ->
+  walk_fwd_wire g fuel ps n from to None
+  = WDone (sort (filter (fun e => from_ok from e && to_ok to e) E)).
+Proof. exact time_walk_fwd_wire_stmt. Qed.
+
+Theorem C16_time_walk_bwd_by_cursor_string : forall E g ps n from to fuel,
+  honours g E -> NoDup E -> representable E -> (forall e, In e E -> wire_ok e) ->
+  1 <= n -> (length E < fuel)%nat ->
+  walk_bwd_wire g fuel ps n from to None
+  = WDone (sort (filter (fun e => from_ok from e && to_ok to e) E)).
+Proof. exact time_walk_bwd_wire_stmt. Qed.
+
 Print Assumptions C16_cursor_order_strict_total.
 Print Assumptions C16_reference_characterised.
 Print Assumptions C16_sorted_list_unique.
@@ -272,3 +306,7 @@ Print Assumptions C16_time_result_with_total.
 Print Assumptions C16_time_join_schedule_independent.
 Print Assumptions C16_time_join_error_needs_only_prefix.
 Print Assumptions C16_typed_nil_error_refuted_before_fix.
+Print Assumptions C16_cursor_codec_roundtrip.
+Print Assumptions C16_cursor_string_as_argument.
+Print Assumptions C16_time_walk_fwd_by_cursor_string.
+Print Assumptions C16_time_walk_bwd_by_cursor_string.
